@@ -25,6 +25,7 @@ Inductive op :=
   | RefineLayers (names : list str) (factor : positive)
   | CopyLayers (lays : list (str * (Q * Q * Q)))
   | SnapLayers (minth : Q) (names : list str) | SnapNearest (names : list str)
+  | FitSurface (names : list str) (zs : list Q) (snap : Q)
   | Translate (dx dy dz : Q) | MoveNodes (ps cs : list pt).
 
 Definition step (g : geo) (o : op) : res geo :=
@@ -59,6 +60,7 @@ Definition step (g : geo) (o : op) : res geo :=
   | CopyLayers lays => copy_layers_from g lays
   | SnapLayers minth names => snap_columns_to_layers g minth names
   | SnapNearest names => snap_columns_to_nearest_layers g names
+  | FitSurface names zs snap => fit_surface g names zs snap
   | Translate dx dy dz => Ok (translate g dx dy dz)
   | MoveNodes ps cs => move_nodes g ps cs
   end.
